@@ -49,6 +49,15 @@ fn basis_event(key: &str, k: usize, t: &Vec<f64>, xs: &[f64]) -> Value {
                     push("bsplev_single_dual", dual_json(&x1), guard(|| Number::Dual(bsplev_single_dual(&x1, i, &k, t, None))));
                     push("bsplev_single_dual2", dual2_json(&x2), guard(|| Number::Dual2(bsplev_single_dual2(&x2, i, &k, t, None))));
                 }
+                if m == 0 && q % 3 == 0 {
+                    // the generic mapping of the unit-coefficient spline (c_i = 1, a constant of the spline's own kind): B_i again
+                    let unit1: Vec<Dual> = (0..n).map(|j| Dual::new(if j == i { 1.0 } else { 0.0 }, vec![])).collect();
+                    let unit2: Vec<Dual2> = (0..n).map(|j| Dual2::new(if j == i { 1.0 } else { 0.0 }, vec![])).collect();
+                    let s1: PPSpline<Dual> = PPSpline::new(k, t.clone(), Some(unit1));
+                    let s2: PPSpline<Dual2> = PPSpline::new(k, t.clone(), Some(unit2));
+                    if let Outcome::Ok(Ok(v)) = guard(|| s1.mapped_value(&Number::Dual(x1.clone())).map_err(|e| e.to_string())) { push("mapped_value", dual_json(&x1), Outcome::Ok(v)); } else { push("mapped_value", dual_json(&x1), Outcome::Panic(String::new())); }
+                    if let Outcome::Ok(Ok(v)) = guard(|| s2.mapped_value(&Number::Dual2(x2.clone())).map_err(|e| e.to_string())) { push("mapped_value", dual2_json(&x2), Outcome::Ok(v)); } else { push("mapped_value", dual2_json(&x2), Outcome::Panic(String::new())); }
+                }
                 push("bspldnev_single_dual", dual_json(&x1), guard(|| Number::Dual(bspldnev_single_dual(&x1, i, &k, t, m, None))));
                 push("bspldnev_single_dual2", dual2_json(&x2), guard(|| Number::Dual2(bspldnev_single_dual2(&x2, i, &k, t, m, None))));
             }
